@@ -134,3 +134,8 @@ package config
 //@   loop 2 invariant forall i int :: 0 <= i && i < iter ==> (pool.CIDR[i] in allCIDRs)
 //@   loop 3 invariant 0 <= idx(2) && idx(2) < len(pool.CIDR) && cidr == pool.CIDR[idx(2)] && WfCIDR(cidr)
 //@   loop 3 invariant forall b int :: 0 <= b && b < iter ==> !Overlap(cidr, allCIDRs[b])
+
+//@ func (*Pools).IsEmpty
+//@   requires p != nil
+//@   ensures result == (p.ByName[pool] == nil)
+//@   modifies nothing
